@@ -3,10 +3,10 @@
    tracking items at every position, all permutations of <= 4 items) is decided by the harness on
    the implementation and by model correspondence; proved: redirection inference is exactly a
    pre-step. *)
-From Coq Require Import List NArith.
+From Coq Require Import List NArith Bool.
 Import ListNotations.
 From Coq Require Import Permutation.
-From UV Require Import Py.Val Py.Str Py.UrlLib Ural.Utils Ural.Quote Ural.InferRedirection Ural.Normalize Proofs.NormFacts Proofs.SortFacts.
+From UV Require Import Py.Val Py.Str Py.UrlLib Ural.Utils Ural.Quote Ural.InferRedirection Ural.Normalize Proofs.NormFacts Proofs.SortFacts Ural.Canonicalize Proofs.ControlFacts Proofs.NormJunk.
 
 Theorem C04_inference_is_a_prestep : forall e o u t r hp,
   infer_redirection_o o = true -> infer_redirection e u = Ok t ->
@@ -24,5 +24,25 @@ Theorem C04_query_order_irrelevant : forall (o : n_opts) (df : option (list str)
   finish_query_items o (kept_query_items o df q1) = finish_query_items o (kept_query_items o df q2).
 Proof. exact normalize_query_order_irrelevant. Qed.
 
+(* surrounding whitespace and control characters, in any order: everything after the redirection inference only reads
+   the cleaned url (removing control characters is a filter, stripping drops the whitespace left around) ... *)
+Theorem C04_surrounding_junk_core : forall e o orig a u b,
+  forallb (fun c => is_control_char c || isspace_c c) a = true ->
+  forallb (fun c => is_control_char c || isspace_c c) b = true ->
+  normalize_core e o orig (a ++ u ++ b) = normalize_core e o orig u.
+Proof. exact normalize_core_junk. Qed.
+
+(* ... so with infer_redirection=False the two results are equal, unless the url does not parse and each string is
+   returned as it is.  (With inference on, infer_redirection reads the raw string: recorded finding F-N10.) *)
+Theorem C04_surrounding_junk : forall e o a u b,
+  infer_redirection_o o = false ->
+  forallb (fun c => is_control_char c || isspace_c c) a = true ->
+  forallb (fun c => is_control_char c || isspace_c c) b = true ->
+  normalize_url e o (a ++ u ++ b) = normalize_url e o u \/
+  (normalize_url e o u = Ok u /\ normalize_url e o (a ++ u ++ b) = Ok (a ++ u ++ b)).
+Proof. exact normalize_url_junk. Qed.
+
+Print Assumptions C04_surrounding_junk_core.
+Print Assumptions C04_surrounding_junk.
 Print Assumptions C04_inference_is_a_prestep.
 Print Assumptions C04_query_order_irrelevant.
